@@ -239,14 +239,69 @@ func (t *table) constraintNameTaken(name string) bool {
 	return false
 }
 
-// chooseName mimics ChooseConstraintName / ChooseIndexName: base name, then
-// base1, base2, ... until unused.
-func (s *Server) chooseName(t *table, base string, relation bool) string {
-	for i := 0; ; i++ {
-		n := base
-		if i > 0 {
-			n = fmt.Sprintf("%s%d", base, i)
+// makeObjectName is PostgreSQL's makeObjectName: name1[_name2][_label],
+// with name1 and name2 shortened (the longer one first) so that the result
+// fits in 63 bytes.
+func makeObjectName(name1, name2, label string) string {
+	for _, n := range []string{name1, name2} {
+		for i := 0; i < len(n); i++ {
+			if n[i] >= 0x80 {
+				panic(unsupported("generated object names from non-ASCII identifiers not implemented"))
+			}
 		}
+	}
+	overhead := 0
+	if name2 != "" {
+		overhead++
+	}
+	if label != "" {
+		overhead += len(label) + 1
+	}
+	avail := 63 - overhead
+	n1, n2 := len(name1), len(name2)
+	for n1+n2 > avail {
+		if n1 > n2 {
+			n1--
+		} else {
+			n2--
+		}
+	}
+	out := name1[:n1]
+	if name2 != "" {
+		out += "_" + name2[:n2]
+	}
+	if label != "" {
+		out += "_" + label
+	}
+	return out
+}
+
+// joinColumnNames mimics ChooseIndexColumnNames /
+// ChooseForeignKeyConstraintNameAddition: names joined by "_", cut at 63 bytes.
+func joinColumnNames(cols []string) string {
+	out := ""
+	for _, c := range cols {
+		if out != "" {
+			out += "_"
+		}
+		out += c
+		if len(out) >= 63 {
+			out = out[:63]
+			break
+		}
+	}
+	return out
+}
+
+// chooseName mimics ChooseConstraintName / ChooseRelationName: the label
+// gets a number appended (1, 2, ...) until the name is unused.
+func (s *Server) chooseName(t *table, name1, name2, label string, relation bool) string {
+	for i := 0; ; i++ {
+		l := label
+		if i > 0 {
+			l = fmt.Sprintf("%s%d", label, i)
+		}
+		n := makeObjectName(name1, name2, l)
 		if t.constraintNameTaken(n) {
 			continue
 		}
@@ -325,7 +380,7 @@ func (ex *execCtx) execCreateTable(st *createTableStmt) (*result, error) {
 				cleanup()
 				return nil, errf(codeSyntax, "multiple default values specified for column %q of table %q", cd.name, st.name)
 			}
-			seqName := s.chooseName(t, fmt.Sprintf("%s_%s_seq", st.name, cd.name), true)
+			seqName := s.chooseName(t, st.name, cd.name, "seq", true)
 			max := int64(1<<31 - 1)
 			switch cd.typ.name {
 			case "serial2":
@@ -497,9 +552,9 @@ func (ex *execCtx) addConstraint(t *table, c tableCons, creating bool) error {
 		name := c.name
 		if name == "" {
 			if c.kind == consPrimary {
-				name = s.chooseName(t, t.name+"_pkey", true)
+				name = s.chooseName(t, t.name, "", "pkey", true)
 			} else {
-				name = s.chooseName(t, t.name+"_"+strings.Join(c.cols, "_")+"_key", true)
+				name = s.chooseName(t, t.name, joinColumnNames(c.cols), "key", true)
 			}
 		} else if t.constraintNameTaken(name) {
 			return errf(codeDuplicateObject, "constraint %q for relation %q already exists", name, t.name)
@@ -545,9 +600,9 @@ func (ex *execCtx) addConstraint(t *table, c tableCons, creating bool) error {
 			var refs []string
 			exprColumns(c.check, &refs)
 			if len(refs) == 1 {
-				name = s.chooseName(t, t.name+"_"+refs[0]+"_check", false)
+				name = s.chooseName(t, t.name, refs[0], "check", false)
 			} else {
-				name = s.chooseName(t, t.name+"_check", false)
+				name = s.chooseName(t, t.name, "", "check", false)
 			}
 		} else if t.constraintNameTaken(name) {
 			return errf(codeDuplicateObject, "constraint %q for relation %q already exists", name, t.name)
@@ -621,7 +676,7 @@ func (ex *execCtx) addConstraint(t *table, c tableCons, creating bool) error {
 		}
 		name := c.name
 		if name == "" {
-			name = s.chooseName(t, t.name+"_"+strings.Join(c.cols, "_")+"_fkey", false)
+			name = s.chooseName(t, t.name, joinColumnNames(c.cols), "fkey", false)
 		} else if t.constraintNameTaken(name) {
 			return errf(codeDuplicateObject, "constraint %q for relation %q already exists", name, t.name)
 		}
@@ -1007,7 +1062,7 @@ func (ex *execCtx) execCreateIndex(st *createIndexStmt) (*result, error) {
 		ex.lockTable(t)
 		name := st.name
 		if name == "" {
-			name = ex.s.chooseName(t, t.name+"_"+strings.Join(st.cols, "_")+"_idx", true)
+			name = ex.s.chooseName(t, t.name, joinColumnNames(st.cols), "idx", true)
 		} else if ex.s.relationNameTaken(name) {
 			if st.ifNotExists {
 				return &result{tag: "CREATE INDEX"}, nil
